@@ -206,13 +206,30 @@ def f_iv_negative(key):
     return f
 
 
-def f_iv_zero_dur(key, neg=False):
+def _enc_differs(l1, l2):
+    a, b = mir_eval.chord.encode(l1), mir_eval.chord.encode(l2)
+    return a[0] != b[0] or not np.array_equal(a[1], b[1]) or a[2] != b[2]
+
+
+def f_iv_zero_dur(key, neg=False, interior=False, labkey=None):
     def f(o, kw, rng):
         a = o[key]
         if a.shape[0] == 0:
             return False
         a = a.copy()
-        i = rng.randrange(a.shape[0])
+        if interior:
+            # evaluate() first crops to [t_min, t_max]: an interval that only touches the crop range is removed by
+            # that documented pre-processing, so the fault is put on an interval strictly inside the range
+            idx = list(range(1, a.shape[0] - 1))
+            if labkey is not None:
+                # chord.evaluate fuses neighbours carrying the same chord (documented): keep the faulty interval distinct
+                labs = o[labkey]
+                idx = [i for i in idx if _enc_differs(labs[i - 1], labs[i]) and _enc_differs(labs[i], labs[i + 1])]
+            if not idx:
+                return False
+            i = rng.choice(idx)
+        else:
+            i = rng.randrange(a.shape[0])
         a[i, 1] = a[i, 0] - (0.25 if neg else 0.0)
         if a[i, 1] < 0:
             a[i, 1] = a[i, 0]
@@ -466,12 +483,12 @@ for k in ("ri", "ei"):
 for k in ("rl", "el"):
     add("segment", SEG_LABEL, "labels_shorter_" + k, f_drop_last(k))
     add("segment", SEG_LABEL, "labels_longer_" + k, f_append(k, "extra"))
-add("segment", ["evaluate"], "reference_zero_duration", f_iv_zero_dur("ri"))
+add("segment", ["evaluate"], "reference_zero_duration", f_iv_zero_dur("ri", interior=True))
 add("segment", ["evaluate"], "reference_not_n_by_2", f_iv_three_cols("ri"))
 add("segment", ["evaluate"], "reference_labels_shorter", f_drop_last("rl"))
 
 add("chord", ["evaluate"], "reference_overlapping", f_overlap("ri", "rl"))
-add("chord", ["evaluate"], "reference_zero_duration", f_iv_zero_dur("ri"))
+add("chord", ["evaluate"], "reference_zero_duration", f_iv_zero_dur("ri", interior=True, labkey="rl"))
 add("chord", ["evaluate"], "reference_not_n_by_2", f_iv_three_cols("ri"))
 for k in ("rl", "el"):
     for bad in ("H:maj", "C:foo", "C:maj/x", "C::maj", "", "C:maj(", "Cmaj7"):
@@ -537,7 +554,7 @@ def build(inp):
     """-> (callable, objs, kwargs) for an oracle input, or None when the fault is not applicable to this base"""
     task, entry = inp["task"], inp["entry"]
     o = OBJS[task](inp["base"])
-    kw = {}
+    kw = dict(inp.get("kw") or {})
     if inp.get("fault"):
         fn, _ = FAULT_INDEX[(task, entry, inp["fault"])]
         rng = random.Random(inp.get("seed", 0))
